@@ -199,6 +199,16 @@ func VH_C20_throttle_disabled(n, lim int) { vhC20ThrottleD(n, lim, false, true) 
 
 func vhC20Throttle(n, lim int, failing bool) { vhC20ThrottleD(n, lim, failing, false) }
 
+// VH_C20_throttle_toggle: the throttle is switched off (from=0) or back on (from=1) by
+// another goroutine while submissions are under way: whatever the moment, every function
+// runs at most once and the pending count is back at zero when all have returned.
+func VH_C20_throttle_toggle(n, lim, from int) {
+	vhToggle = true
+	vhC20ThrottleD(n, lim, false, from == 1)
+}
+
+var vhToggle bool
+
 func vhC20ThrottleD(n, lim int, failing, disabled bool) {
 	thunkErr := NewSyntaxError("thunk failed")
 	vsetNow(vhBase)
@@ -231,6 +241,13 @@ func vhC20ThrottleD(n, lim int, failing, disabled bool) {
 			wg.Done()
 		}(i)
 	}
+	if vhToggle {
+		wg.Add(1)
+		go func() {
+			t.Disable(!disabled)
+			wg.Done()
+		}()
+	}
 	wg.Wait()
 	for i := 0; i < n; i++ {
 		vassert(runs[i] <= 1, "submitted-function-runs-at-most-once")
@@ -246,7 +263,7 @@ func vhC20ThrottleD(n, lim int, failing, disabled bool) {
 			vassert(runs[i] == 0, "failure-means-it-did-not-run")
 		}
 	}
-	if !disabled {
+	if !disabled && !vhToggle {
 		vassert(maxPending <= lim+1, "pending-within-limit-plus-one")
 	}
 	p, _ := t.Pending()
